@@ -193,6 +193,29 @@ impl Pos {
         self.sq.iter().filter(|x| matches!(x, Some((cc, _)) if *cc == c)).count()
     }
 
+    /// number of pieces of one kind and colour
+    pub fn kind_count(&self, c: C, k: P) -> usize {
+        self.sq.iter().filter(|x| **x == Some((c, k))).count()
+    }
+
+    /// Necessary material condition of reachability from the standard start: per side at most
+    /// eight pawns, and every officer beyond the initial two knights, two bishops, two rooks
+    /// and one queen is a promoted pawn, so pawns + surplus officers <= 8. (Bishop colours and
+    /// pawn-structure capture counts are not looked at.)
+    pub fn material_reachable(&self) -> bool {
+        for c in [C::White, C::Black] {
+            let pawns = self.kind_count(c, P::Pawn);
+            let surplus = self.kind_count(c, P::Knight).saturating_sub(2)
+                + self.kind_count(c, P::Bishop).saturating_sub(2)
+                + self.kind_count(c, P::Rook).saturating_sub(2)
+                + self.kind_count(c, P::Queen).saturating_sub(1);
+            if pawns + surplus > 8 || self.kind_count(c, P::King) != 1 {
+                return false;
+            }
+        }
+        true
+    }
+
     pub fn men(&self) -> usize {
         self.sq.iter().filter(|x| x.is_some()).count()
     }
@@ -682,7 +705,7 @@ impl Pos {
     /// the double step can be retracted into a position in which the side that made it was
     /// not giving check (i.e. some legal last move exists as far as these fields can tell).
     pub fn plausible(&self) -> bool {
-        if !self.unplayable_reasons().is_empty() {
+        if !self.unplayable_reasons().is_empty() || !self.material_reachable() {
             return false;
         }
         // pawns never stand on the back ranks in a position reached by play
